@@ -38,6 +38,14 @@ pub struct NsObs {
     pub nserr: String,
 }
 
+/// NsScope!LocalOf: the part after the first colon (the whole name when there is none)
+fn local_of(n: &[u8]) -> &[u8] {
+    match n.iter().position(|b| *b == b':') {
+        Some(i) => &n[i + 1..],
+        None => n,
+    }
+}
+
 macro_rules! queries {
     ($r:expr, $pool:expr) => {{
         let mut q = Vec::new();
@@ -46,12 +54,14 @@ macro_rules! queries {
         for n in $pool.iter() {
             let (a, la) = $r.resolve_element(QName(n.as_bytes()));
             let (b, lb) = $r.resolve(QName(n.as_bytes()), false);
-            q.push(if rr(&a) == rr(&b) && la == lb { rr(&a) } else { json!("resolve(_, false) differs from resolve_element") });
+            let local_ok = la.as_ref() == local_of(n.as_bytes());
+            q.push(if rr(&a) == rr(&b) && la == lb && local_ok { rr(&a) } else { json!("resolve(_, false) differs from resolve_element, or wrong local name") });
         }
         for n in $pool.iter() {
             let (a, la) = $r.resolve_attribute(QName(n.as_bytes()));
             let (b, lb) = $r.resolve(QName(n.as_bytes()), true);
-            q.push(if rr(&a) == rr(&b) && la == lb { rr(&a) } else { json!("resolve(_, true) differs from resolve_attribute") });
+            let local_ok = la.as_ref() == local_of(n.as_bytes());
+            q.push(if rr(&a) == rr(&b) && la == lb && local_ok { rr(&a) } else { json!("resolve(_, true) differs from resolve_attribute, or wrong local name") });
         }
         let pf: Vec<Value> = $r
             .prefixes()
